@@ -17,8 +17,8 @@ CFG = dict(
     lean_files=["Trig", "Pipe", "PipeJudge", "C01", "C09", "Pipe1", "Pipe2", "Pipe3", "Pipe4", "Edge", "Level", "Auto", "Passes"],
     trusted_base=_PIPE_TB,
     assumptions=["blocks of one run carry contiguous frame numbers and one sample period (C03/C04 establish contiguity for the real sources)",
-                 "no-crash theorem covers the edge/level/auto passes (any buffer, any settings, 3 <= npre < nsamp); for edge-multi and for "
-                 "secondary records a crash is excluded only by the correspondence run (PANIC output = violation) and the C08 check"],
+                 "no-crash theorems: edge/level/auto passes (C01_no_crash_nonEMT: any buffer, any settings, 3 <= npre < nsamp) and edge-multi primaries across blocks "
+                 "(C08_no_oob); for secondary (group-trigger) records a crash is excluded only by the correspondence run (PANIC output = violation)"],
     timeout=dict(quick=900, thorough=3600),
 )
 MANIFEST = dict(
@@ -30,8 +30,8 @@ MANIFEST = dict(
          "passes never index out of range (C01_no_crash_nonEMT). The model is compared record-for-record with the real ProcessSegments pipeline on every run and "
          "the same oracle judges the real records against the ground-truth stream.",
     note="Trusted: Lean 4.33 kernel (axioms propext, Classical.choice, Quot.sound only; audited every run); the hand-written model is tied to the Go code only by "
-         "differential testing with seeded generators (not a proof). Partial: 'never crashes' is proved for edge/level/auto triggering only; for edge-multi and "
-         "secondaries it rests on the correspondence run (crash = violation). Decimation (unreachable from any API) is not modelled. Two crash defects found by "
+         "differential testing with seeded generators (not a proof). Partial: 'never crashes' is proved for edge/level/auto triggering (here) and edge-multi primaries (C08_no_oob); for "
+         "secondary records it rests on the correspondence run (crash = violation). Decimation (unreachable from any API) is not modelled. Two crash defects found by "
          "this check were repaired in /repo (5067219, fbc46c8).",
     technique="Lean 4 theorems (invariant + induction over operation histories) over an executable model; model tied to the Go code by a differential correspondence run",
 )
